@@ -19,6 +19,7 @@ RULE = ("every charge pattern over {+,-,0} of length 1..Lmax (quick 11, thorough
 RULE += ("; added after the mutation rounds: objects obtained through a partly frozen shuffle, from lower-case / whitespace text and around a backend object; kappa asked before delta; every value asked twice; the first cases of every shard are judged again at its end")
 RULE += ("; round 5: objects restored from pickle / copy / deepcopy; look-alike words (nucleotide strings, reading frames)")
 RULE += ("; round 7: every composition of lengths 12-48 (thorough 72), one arrangement each")
+RULE += ("; round 8: handles whose public SeqObj attribute is pointed at another backend object after a query; objects built from files")
 EXHAUSTIVE = {"quick": False, "thorough": False}
 EXHAUSTIVE_NOTE = {"quick": "charge patterns of length 1..11 enumerated completely (265,719)",
                    "thorough": "charge patterns of length 1..13 enumerated completely (2,391,483)"}
